@@ -281,3 +281,57 @@ def multi_letter_labels(tier, rng, rep):
         rep.case(key=(repr(d),), nontrivial=sum(len(v) for v in dd.values()) >= 2)
         if len(rep.failures) >= 3:
             return
+
+
+@bounded(P, "pruning_with_parallel_edges", functions=[A + "FSA.recurrent", A + "FSA.delete_vertex", A + "FSA.delete_vertices", A + "FSA.enumerate_words", A + "FSA.follow_word"],
+         note="recurrent version of automata in which a surviving vertex has several parallel edges (different labels) into a pruned vertex; three labels are needed for that on two states")
+def pruning_with_parallel_edges(tier, rng, rep):
+    labels = ["a", "b", "c"]
+    cases = list(all_deterministic_automata(2, labels))
+    N3 = 1500 if tier == 'thorough' else 300
+    for _ in range(N3):
+        n = int(rng.integers(3, 6))
+        d = {s: {} for s in range(n)}
+        for s in range(n):
+            for l in labels + (["d"] if s % 2 else []):
+                r = rng.random()
+                if r < 0.75:
+                    # few distinct targets per vertex: parallel edges are the common case
+                    d[s][l] = int(rng.choice([0, n - 1, int(rng.integers(0, n))]))
+        cases.append(d)
+    rep.rule = f"all 729 automata on 2 states over {{a,b,c}}; {N3} random automata on 3..5 states over 3..4 labels with few distinct targets per vertex; recurrent (both in-place modes) compared with the model, all three views, enumeration and walks on the result; non-trivial = a surviving vertex with >= 2 edges into a pruned vertex"
+    rep.bound = f"{len(cases)} automata"
+    rep.exhaustive = False
+    for ci, d in enumerate(cases):
+        M = Model.from_graph_dict(d)
+        keep = M.recurrent_vertices()
+        Mr = Model(keep, {e for e in M.E if e[0] in keep and e[2] in keep})
+        inp = {"graph_dict": {str(k): v for k, v in d.items()}}
+        par = any(sum(1 for (v, l, w) in M.E if v == s and w == t) >= 2 for s in keep for t in M.V - keep)
+
+        def body():
+            F = fsa.FSA(copy.deepcopy(d), [0])
+            before = snapshot(F)
+            R = F.recurrent()
+            err = coherence_error(R, Mr)
+            if err:
+                rep.fail("recurrent_is_largest_dead_end_free_subautomaton", err, inp); return
+            if snapshot(F) != before:
+                rep.fail("original_unchanged", "recurrent() changed the original automaton", inp); return
+            G = fsa.FSA(copy.deepcopy(d), [0])
+            G.recurrent(inplace=True)
+            err = coherence_error(G, Mr)
+            if err:
+                rep.fail("recurrent_is_largest_dead_end_free_subautomaton", "in place: " + err, inp); return
+            for s in sorted(keep):
+                want = sorted("".join(w) for m in range(3) for w, e in Mr.paths(s, m))
+                got = sorted(R.enumerate_words(2, start_vertex=s))
+                if got != want:
+                    rep.fail("enumeration_on_the_recurrent_version", f"from {s}: {got} vs {want}", {**inp, "start": s}); return
+                for w in itertools.product(sorted({l for (_, l, _) in M.E}), repeat=2):
+                    if R.accepts("".join(w), start_vertex=s) != (Mr.follow(s, w) is not None):
+                        rep.fail("acceptance_on_the_recurrent_version", f"from {s}: word {w}", {**inp, "start": s, "word": list(w)}); return
+        rep.attempt("operations_run", inp, body)
+        rep.case(key=repr(d), nontrivial=par, sample=inp if ci == 400 else None)
+        if len(rep.failures) >= 3:
+            return
